@@ -514,6 +514,15 @@ def module_consts(module, scope=''):
     return look
 
 
+def _is_truth_valued(e):
+    if isinstance(e, ast.Compare) or (isinstance(e, ast.UnaryOp) and isinstance(e.op, ast.Not)):
+        return True
+    if isinstance(e, ast.BoolOp):
+        return all(_is_truth_valued(v) for v in e.values)
+    return isinstance(e, ast.Call) and isinstance(e.func, ast.Attribute) and e.func.attr in (
+        'endswith', 'startswith', 'isspace', 'isdigit', 'isalpha', 'isalnum', 'isdecimal', 'isascii', 'isupper', 'islower', 'isidentifier')
+
+
 def simplify(e, folder):
     """replace every boolean sub-expression the folder decides by its constant; IfExp with a decided test by its branch"""
     class T(ast.NodeTransformer):
@@ -527,6 +536,14 @@ def simplify(e, folder):
                 t = folder.truth(n)
                 if t is not None:
                     return ast.copy_location(ast.Constant(value=t), n)
+            if isinstance(n, ast.Compare) and len(n.ops) == 1 and isinstance(n.ops[0], (ast.Eq, ast.NotEq)):
+                # B == True / B != False / ... for an expression B that is a truth value itself (a comparison, a `not`, a str predicate)
+                l_, r_ = n.left, n.comparators[0]
+                if isinstance(l_, ast.Constant) and isinstance(l_.value, bool):
+                    l_, r_ = r_, l_
+                if isinstance(r_, ast.Constant) and isinstance(r_.value, bool) and _is_truth_valued(l_):
+                    same = isinstance(n.ops[0], ast.Eq) == r_.value
+                    return l_ if same else ast.copy_location(ast.UnaryOp(op=ast.Not(), operand=l_), n)
             if isinstance(n, ast.BoolOp):
                 # drop neutral constants
                 neutral = isinstance(n.op, ast.And)
